@@ -571,11 +571,26 @@ def check_property(prop, spec, tier, seed, replay=None, keep=False):
 
     # hang candidates: re-run the case alone; a second expiry makes it a violation
     unreproduced = 0
-    for h in total.hang_candidates[:3]:
+    # two expiries with the same blocked operation (in different cases / shards of this run) are a hang verdict
+    # by themselves; a single expiry is re-run alone (schedule-dependent hangs need several attempts)
+    hang_keys = {}
+    for h in total.hang_candidates:
+        hang_keys.setdefault(h.get("key"), []).append(h)
+    singles = []
+    for k, hs in hang_keys.items():
+        if len(hs) >= 2:
+            w = dict(hs[0])
+            w.pop("_run", None)
+            w["count"] = len(hs)
+            w["detail"] = (w.get("detail") or "") + " [%d independent watchdog expiries with this blocked operation in this run]" % len(hs)
+            total.violations.append(w)
+        else:
+            singles.append(hs[0])
+    for h in singles[:3]:
         run = h.pop("_run")
         again = False
         if h.get("case") is not None:
-            for attempt in range(2):
+            for attempt in range(6):
                 od = os.path.join(workdir, "hang-%s-%s-%d" % (run["name"], h["case"], attempt))
                 r = run_shard(prop, run, exes[run["name"]], tier, h["seed"], h["case"] + 1, 0, 0, 1, od, 900,
                               only=h["case"])
